@@ -26,6 +26,13 @@ Verdicts(c) ==
      (IF Same(Parse(c.ltoks), c.lout) /\ Same(Parse(c.rtoks), c.rout) THEN {} ELSE {<<"Drift", "">>}) \cup
      (IF c.lout.k # "X" /\ c.lout = c.rout /\ c.same THEN {} ELSE {<<"Law", c.law>>}) \cup
      (IF Parse(c.ltoks) = Parse(c.rtoks) THEN {} ELSE {<<"LawModel", c.law>>})
+   ELSE IF c.kind = "distinct" THEN
+     \* near misses: where the transcription tells two texts apart, the real compiler must not conflate them, and what the
+     \* transcription refuses as malformed must not be accepted because something similar was compiled before
+     LET ml == Parse(c.ltoks)  mr == Parse(c.rtoks) IN
+     (IF ml # mr /\ c.lout = c.rout THEN {<<"Law", "near-miss-conflated">>} ELSE {}) \cup
+     (IF IsErr(mr) /\ c.rout.k # "X" THEN {<<"NearMissAccepted", c.rtext>>} ELSE {}) \cup
+     (IF ~IsErr(mr) /\ ~IsErr(ml) /\ c.lout.k # "X" /\ c.rout.k # "X" /\ c.same THEN {<<"Law", "near-miss-same-object">>} ELSE {})
    ELSE IF c.kind = "ws" THEN
      (IF [i \in DOMAIN Lex(c.lexemes) |-> [v |-> Lex(c.lexemes)[i].v, ty |-> Lex(c.lexemes)[i].ty]] = c.toks THEN {} ELSE {<<"DriftLexer", "">>}) \cup
      (IF c.out = c.base /\ (c.out.k \in {"E", "C"} => c.same) THEN {} ELSE {<<"Law", "whitespace">>})
